@@ -92,7 +92,7 @@ impl Monitor for C14 {
             "medium-soft" => gener::GenCfg::medium().with_soft(4),
             n => family(n),
         };
-        let (name, (u, mut p)) = if r.chance(1, 12) { ("soft-backjump", gener::soft_backjump(r)) } else { (name, gener::generate(r, &cfg)) };
+        let (name, (u, mut p)) = if r.chance(1, 12) { ("soft-backjump", gener::soft_backjump(r)) } else if r.chance(1, 10) { ("soft-learn-reject", gener::soft_learn_reject(r)) } else { (name, gener::generate(r, &cfg)) };
         if p.soft.is_empty() && !u.solvs.is_empty() {
             p.soft.push(r.below(u.solvs.len() as u64) as u32);
         }
